@@ -46,6 +46,7 @@ def setup(ctx):
     ctx.require("monitor", "concurrent_exchanges", 8)
     ctx.require("monitor", "complete_non2x_then_trouble", 9)
     ctx.require("monitor", "configured_stalls", 20)
+    ctx.require("monitor", "exchanges_after_connect_failures", 40)
     ctx.require("monitor", "speak_first_upstream_exchanges", 14)
     ctx.require("monitor", "exchanges", 74)
     ctx.require("monitor", "verbatim_compared", 43)
@@ -302,6 +303,81 @@ def run_configured_stall(ctx, base):
                 ctx.case(("configured-stall", name, stage, stream[:2], t_close), True, sample=wit)
             finally:
                 close_loop(loop)
+
+
+def run_repeated_connect_failures(ctx, base):
+    """One proxy location of one wired server (captured start_server wiring, virtual time) meets an upstream that
+    cannot be reached a dozen times in a row - refused, unroutable, TLS handshake failing, name not resolving - and is
+    then back.  Every one of those requests is answered 43, and the first request after the upstream's return is
+    relayed: what a failed attempt leaves behind must not cost the next one its answer."""
+    import contextlib
+    import io
+    import socket as _socket
+    import ssl as _ssl
+
+    import tomli_w
+    from nauyaca.server.config import ServerConfig
+
+    from vf import quiet_logs
+    from vf.sim import ServerSim, capture_factory
+    from vf.transports import FakeTransport
+    from vf.vloop import close_loop, new_loop
+
+    docroot = os.path.join(base, "cfg-doc")
+    os.makedirs(docroot, exist_ok=True)
+    errors = [ConnectionRefusedError(111, "Connection refused"), OSError(113, "No route to host"), _ssl.SSLError(1, "[SSL: SSLV3_ALERT_HANDSHAKE_FAILURE] handshake failure"),
+              _socket.gaierror(-2, "Name or service not known"), ConnectionResetError(104, "Connection reset by peer"), TimeoutError("timed out")]
+    for n_fail in (3, 12, ctx.pick(20, 70)):
+        cfgfile = os.path.join(base, "refail.toml")
+        with open(cfgfile, "wb") as f:
+            tomli_w.dump({"server": {"host": "127.0.0.1", "port": 1965, "document_root": docroot}, "rate_limit": {"enabled": False},
+                          "locations": [{"prefix": "/", "handler": "proxy", "upstream": "gemini://upstream.test:1965", "timeout": 5.0}]}, f)
+        with contextlib.redirect_stdout(io.StringIO()):
+            cap = capture_factory(dict(log_level="CRITICAL", enable_rate_limiting=False), ServerConfig.from_toml(Path(cfgfile)))
+        quiet_logs()
+        loop = new_loop()
+        state = {"calls": 0, "fail": True}
+        relayed = b"20 text/plain; charset=iso-8859-1\r\nupstream is back \xe9\n"
+
+        async def fake_create_connection(protocol_factory, host=None, port=None, **kw):
+            state["calls"] += 1
+            if state["fail"]:
+                raise errors[state["calls"] % len(errors)]
+            proto = protocol_factory()
+            tr = FakeTransport(loop, proto, peername=("203.0.113.9", port or 1965))
+            proto.connection_made(tr)
+            loop.call_later(0.1, tr.feed, relayed)
+            loop.call_later(0.2, tr.peer_eof)
+            return tr, proto
+
+        loop.create_connection = fake_create_connection  # type: ignore[method-assign]
+        try:
+            rows = []
+            for i in range(n_fail + 2):
+                state["fail"] = i < n_fail
+                sim = ServerSim(cap["factory"], peername=("192.0.2.7", 40001 + i), loop=loop, log=[])
+                sim.start()
+                sim.feed(f"gemini://example.org/page{i}\r\n".encode())
+                loop.run_until(loop.time() + 120.0)
+                stream = bytes(sim.transport.written)
+                rows.append(stream[:2])
+                ctx.count("monitor", "exchanges")
+                ctx.count("monitor", "exchanges_after_connect_failures")
+                wit = {"level": "L1-wired", "upstream_failures_so_far": min(i, n_fail), "this_request": "upstream unreachable" if state["fail"] else "upstream answers", "downstream": stream[:80],
+                       "closed": sim.transport.closing, "earlier_answers": [r.decode("latin1") for r in rows[-14:-1]]}
+                if state["fail"]:
+                    ctx.count("monitor", "faults_injected")
+                    if not stream.startswith(b"43"):
+                        ctx.violation("no-43:fault=connect-failure:after-earlier-connect-failures" if i else "no-43:fault=connect-failure", f"request {i + 1}: upstream unreachable, downstream got {stream[:30]!r}", wit)
+                    else:
+                        ctx.count("monitor", "got_43")
+                elif stream != relayed:
+                    ctx.violation("relay-altered:after-connect-failures" if stream else "no-answer:upstream-back-after-connect-failures", f"the upstream answers again after {n_fail} failed connection attempts; downstream got {stream[:40]!r}", wit)
+                else:
+                    ctx.count("monitor", "verbatim_compared")
+                ctx.case(("repeated-connect-failures", n_fail, i >= n_fail, stream[:2]), True, sample=wit)
+        finally:
+            close_loop(loop)
 
 
 def run(ctx):
@@ -669,6 +745,8 @@ def run(ctx):
                     ctx.case(("fault", "tls-failure", r["data"][:2]), True)
         if ctx.mine(6):
             run_configured_stall(ctx, base)
+        if ctx.mine(8):
+            run_repeated_connect_failures(ctx, base)
         if ctx.mine(7):
             run_speak_first_upstream(ctx, world, cfg)
         if ctx.mine(5):
